@@ -233,7 +233,7 @@ func (e *Engine) makeLimit(et types.Type) uint64 {
 	if v, ok := e.cs.AllocLimits[k]; ok {
 		return v
 	}
-	return 1 << 32
+	return maxLen
 }
 
 // constTable returns the constant contents of a package-level table, if registered.
